@@ -68,11 +68,11 @@ type tierCfg struct {
 // per-property defaults: cases are spread over the workers; the budget is the
 // wall-clock limit of each worker.
 var tiers = map[string]map[string]tierCfg{
-	"C09": {"quick": {48, 60}, "thorough": {4800, 1500}},
-	"C08": {"quick": {2400, 50}, "thorough": {5000000, 1500}},
-	"C10": {"quick": {2400, 90}, "thorough": {8000000, 1200}},
+	"C09": {"quick": {160, 90}, "thorough": {4800, 1500}},
+	"C08": {"quick": {8000, 90}, "thorough": {5000000, 1500}},
+	"C10": {"quick": {3200, 90}, "thorough": {8000000, 1200}},
 	"C06": {"quick": {52000, 120}, "thorough": {20000000, 1200}},
-	"C19": {"quick": {2400, 50}, "thorough": {5000000, 1200}},
+	"C19": {"quick": {12000, 90}, "thorough": {5000000, 1200}},
 }
 
 var levels = map[string]string{"C06": "fault_enumeration", "C08": "exploration", "C09": "fault_enumeration", "C10": "exploration", "C19": "exploration"}
